@@ -94,15 +94,30 @@
          - may be empty (a blank line inside the pattern), but a line of spaces only must be empty unless a
            placeable follows it on the same line (then the spaces are that line's indentation),
          - otherwise its first byte after the indentation is none of . [ *
-       and if the pattern has a line break at all, at least one non-blank line after the first has no
-       indentation (the common indentation is 0; Render.wf_pattern_lines asks the same).  The pattern does
-       not start with a space or a line break and does not end with one.  A message may have no value if it
+       and if the pattern has a line break at all (class RoundTripML.wl_pattern, Render.wf_pattern_lines_top;
+       the same rule for the values of messages, terms, attributes and VARIANTS),
+         - at least one non-blank line after the first has no indentation (the common indentation is 0), or
+         - ALL lines after the first are indented deeper than the first, and the first byte of the pattern
+           is none of . [ *   Such a tree has a source only in BLOCK form (the value starts on a line after
+           the '=' or after the variant key, where the first line takes part in the common indentation that
+           the parser removes): Render.render_value_with prints it in block form whatever the layout choice
+           (Render.needs_block), and the layouts of RoundTripNest.nest_layout allow the inline form only in the
+           first case.  In inline form the parser would remove the extra indentation and return ANOTHER tree
+           (C02_example_block_only_inline_differs); a first byte . [ * cannot start a block line, so such a
+           tree with all continuation lines indented has no source at all and is not well-formed.
+         - The FIRST line may be indented as well (the first text starts with spaces; reference fixture
+           multiline_values.ftl, key10: "  two\nzero\n    four"): block form only again, the first line is then a
+           line like the others (not blank; after its spaces it does not start with . [ * , or the spaces are
+           the indentation of a placeable), and some line after it is not indented (C02_example_first_line_indented).
+       The pattern does not start with a line break (with a space only as just described) and does not end
+       with a space or a line break.  A message may have no value if it
        has attributes; identifiers, numbers and strings well-formed.
      A comment (attached or stand-alone) has at least one line; no CR LF in a line; the first byte of a line
      is not a UTF-8 continuation byte; lines may be empty or consist of spaces only.  The theorems have the
      premise last_comment_ok t (D7: the last entry is not a stand-alone comment with an empty last line).
    All layouts render can choose for such trees are covered: 0-2 spaces before and after '=', inline or
-   block start of each value (with an optional blank line), the indentation of the lines of a value after
+   block start of each value (with an optional blank line; block start only, if all its continuation lines are
+   indented), the indentation of the lines of a value after
    a line break (4-6 spaces, 8-10 in an attribute, the same for all lines of the value; the parser removes
    it), 0-1 spaces on a blank line inside a value, blanks (spaces and line
    breaks) inside the braces of a placeable; for call arguments: blanks (0-2 spaces or a line break with
@@ -110,8 +125,8 @@
    argument and before ")", and an optional trailing "," after the last argument; for a select expression: 0-2 spaces or a line break before
    "->" (one space at least after a selector that ends in an identifier character), 0-2 spaces after it, the
    variants on lines of their own indented by the pattern's indentation plus 0-2, an optional blank line
-   before a variant, blanks inside "[ ]", 0-2 spaces before the value, the value's further lines indented by
-   4-6 more, 0-2 spaces and an optional line break before the closing brace; attribute lines indented by 1-3 spaces, 0-2 blank lines at the
+   before a variant, blanks inside "[ ]", 0-2 spaces before the value, inline or block start of the value (as
+   after '='), the value's further lines indented by 4-6 more, 0-2 spaces and an optional line break before the closing brace; attribute lines indented by 1-3 spaces, 0-2 blank lines at the
    start, no blank line between an attached comment and its entry, the blank lines the grammar
    requires after a stand-alone comment (so that it neither attaches to the next message nor merges with the
    next comment) plus 0-2 more between any two entries, 0-2 spaces on blank
@@ -319,6 +334,71 @@ Definition ex_ml : resource :=
                                      TextElement ([10%N] ++ b "second" ++ [10%N] ++ b " third")])]
      (Some (Comment [b "attached"]));
    Message (b "m") (Some (Pattern [TextElement (b "one line")])) [] None].
+(* inside the fragment: values whose continuation lines are ALL indented deeper than the first line (a message value
+   led by a placeable, an attribute value); Render.v prints them in block form under every layout choice *)
+Definition ex_block_only : resource :=
+  [Message (b "a") (Some (Pattern [PlaceableElement (Inline (MessageReference (b "m") None)); TextElement ([10%N] ++ b "  x")]))
+     [Attribute (b "t") (Pattern [TextElement (b "one" ++ [10%N] ++ b " two" ++ [10%N] ++ b "   three")])] None].
+Example C02_example_block_only_in_fragment : sel_resource 0 ex_block_only = true /\ wf_resource ex_block_only = true.
+Proof. vm_compute. split; reflexivity. Qed.
+Example C02_example_block_only_rendered :
+  render [] ex_block_only =
+  b "a=" ++ [10%N] ++ b "    {m}" ++ [10%N] ++ b "      x" ++ [10%N] ++ b " .t=" ++ [10%N] ++ b "        one" ++ [10%N] ++
+  b "         two" ++ [10%N] ++ b "           three".
+Proof. vm_compute. reflexivity. Qed.
+Example C02_example_block_only_layout_1 : roundtrips_under [] ex_block_only.
+Proof. rt. Qed.
+Example C02_example_block_only_layout_2 : roundtrips_under [1;1;1;1;1;1;1;1;1;1;1;1;1;1;1;1;1;1;1;1;1] ex_block_only.
+Proof. rt. Qed.
+Example C02_example_block_only_layout_3 : roundtrips_under [2;0;1;2;2;1;0;2;1;2;2;0;1;1;2;0;2;1;2;2;1;0] ex_block_only.
+Proof. rt. Qed.
+(* the inline form of the same value is a source of ANOTHER tree: the parser removes the indentation of "  x" *)
+Example C02_example_block_only_inline_differs :
+  exists t', parse (b "a = { m }" ++ [10%N] ++ b "      x" ++ [10%N]) = Done (t', []) /\
+             map join_entry t' =
+             [Message (b "a") (Some (Pattern [PlaceableElement (Inline (MessageReference (b "m") None)); TextElement ([10%N] ++ b "x")])) [] None].
+Proof. eexists. split; vm_compute; reflexivity. Qed.
+
+(* values whose FIRST line is indented (reference fixture multiline_values.ftl: key10, key13), and a first text that
+   is the indentation of a placeable *)
+Definition ex_first_line_indented : resource :=
+  [Message (b "key10") (Some (Pattern [TextElement (b "  two" ++ [10%N] ++ b "zero" ++ [10%N] ++ b "    four")]))
+     [Attribute (b "a") (Pattern [TextElement (b "    four" ++ [10%N]); PlaceableElement (Inline (StringLiteral (b ".")))]);
+      Attribute (b "c") (Pattern [TextElement (b "  "); PlaceableElement (Inline (StringLiteral (b "."))); TextElement ([10%N] ++ b "x")])] None].
+Example C02_example_first_line_indented_in_fragment :
+  sel_resource 0 ex_first_line_indented = true /\ wf_resource ex_first_line_indented = true.
+Proof. vm_compute. split; reflexivity. Qed.
+Example C02_example_first_line_indented_layout_1 : roundtrips_under [] ex_first_line_indented.
+Proof. rt. Qed.
+Example C02_example_first_line_indented_layout_2 : roundtrips_under [1;1;1;1;1;1;1;1;1;1;1;1;1;1;1;1;1;1;1;1] ex_first_line_indented.
+Proof. rt. Qed.
+Example C02_example_first_line_indented_layout_3 : roundtrips_under [3;3;3;3;3;3;3;3;3;3;3;3;3;3;3;3;3;3;3] ex_first_line_indented.
+Proof. rt. Qed.
+(* the source of the reference fixture *)
+Example C02_example_first_line_indented_fixture :
+  exists t', parse (b "key10 =" ++ [10%N] ++ b "      two" ++ [10%N] ++ b "    zero" ++ [10%N] ++ b "        four" ++ [10%N]) = Done (t', []) /\
+             map join_entry t' = [Message (b "key10") (Some (Pattern [TextElement (b "  two" ++ [10%N] ++ b "zero" ++ [10%N] ++ b "    four")])) [] None].
+Proof. eexists. split; vm_compute; reflexivity. Qed.
+
+(* the same inside a select expression: variant values whose continuation lines are all indented *)
+Definition ex_block_only_variants : resource :=
+  [Message (b "a") (Some (Pattern [PlaceableElement (Select (VariableReference (b "n"))
+      [Variant (KeyIdentifier (b "one")) (Pattern [TextElement (b "first" ++ [10%N] ++ b "  second")]) false;
+       Variant (KeyIdentifier (b "x")) (Pattern [PlaceableElement (Inline (VariableReference (b "n"))); TextElement ([10%N] ++ b " y")]) true])])) [] None].
+Example C02_example_block_only_variants_in_fragment :
+  sel_resource 1 ex_block_only_variants = true /\ wf_resource ex_block_only_variants = true.
+Proof. vm_compute. split; reflexivity. Qed.
+Example C02_example_block_only_variants_rendered :
+  render [] ex_block_only_variants =
+  b "a={$n ->" ++ [10%N] ++ b "    [one]" ++ [10%N] ++ b "        first" ++ [10%N] ++ b "          second" ++ [10%N] ++
+  b "    *[x]" ++ [10%N] ++ b "        {$n}" ++ [10%N] ++ b "         y" ++ [10%N] ++ b "}".
+Proof. vm_compute. reflexivity. Qed.
+Example C02_example_block_only_variants_layout_1 : roundtrips_under [] ex_block_only_variants.
+Proof. rt. Qed.
+Example C02_example_block_only_variants_layout_2 :
+  roundtrips_under [1;2;1;2;1;2;1;2;1;2;1;2;1;2;1;2;1;2;1;2;1;2;1;2;1;2;1;2;1;2] ex_block_only_variants.
+Proof. rt. Qed.
+
 Example C02_example_ml_in_fragment : sel_resource 0 ex_ml = true.
 Proof. vm_compute. reflexivity. Qed.
 Example C02_example_ml_layout_1 : roundtrips_under [] ex_ml.
